@@ -95,7 +95,11 @@ def run(ctx):
                 kind, lazy = fixed[i]
                 mem = [A.Renamed("a", lazy["sub"])]
             elif kind == "struct":
-                lazy = A.N("LazyStruct", subs=mem)
+                subs = list(mem)
+                if i >= len(fixed) and rng.random() < 0.4:      # members without a name: positions count them, names do not
+                    for _ in range(rng.choice([1, 2])):
+                        subs.insert(rng.randrange(len(subs) + 1), rng.choice([A.Const(b"MZ"), A.Padding(2), A.Alias("Byte"), A.Const(7, A.Alias("Int16ub"))]))
+                lazy = A.N("LazyStruct", subs=subs)
             elif kind == "array":
                 el = mem[0]["sub"] if rng.random() < 0.5 else prefix_measured(rng)
                 lazy = A.N("LazyArray", count=A.C(rng.choice([1, 2, 3, 4, 5])), sub=el)
@@ -144,7 +148,8 @@ def run(ctx):
                             try:
                                 if kind == "struct":
                                     nm = mem[j]["name"]
-                                    val = res[nm] if how == 0 else getattr(res, nm) if how == 1 else res[j] if how == 2 else dict(res.items())[nm]
+                                    pos = [q for q, sc in enumerate(lazy["subs"]) if sc.get("k") == "Renamed"][j]
+                                    val = res[nm] if how == 0 else getattr(res, nm) if how == 1 else res[pos] if how == 2 else dict(res.items())[nm]
                                 elif kind == "array":
                                     nm = ""
                                     val = res[j] if how < 2 else res[j:j + 1][0] if how == 2 else list(res)[j]
